@@ -739,6 +739,226 @@ func cmdConcX(args []string) error {
 			done()
 		}
 
+		// ---- (14) an operator's by-filter operation on SQLite with other requests served in the middle of it. Deterministic: the
+		// other requests go through a second handle on the same database file (as `hookaido mcp serve --db` next to `hookaido
+		// run` does), issued from inside the first handle's clock callback at its j-th reading. Whatever j, what the worker was
+		// told stays true: a nack with a one hour delay that succeeded hides the message for the hour; a lease just granted for
+		// an hour can be acknowledged.
+		for _, op := range []string{"requeue-dead", "requeue-canceled", "resume-canceled"} {
+			for _, inter := range []string{"requeue-lease-nack", "requeue-lease"} {
+				for j := 1; j <= 3; j++ {
+					name := fmt.Sprintf("cx-i-%d-%s-%s-%d.db", round, op, inter, j)
+					path := filepath.Join(dir, name)
+					clock := &fakeClock{now: 1_700_000_000_000_000_000}
+					reads := 0
+					var hook func()
+					s1, err1 := queue.NewSQLiteStore(path, queue.WithSQLiteNowFunc(func() time.Time {
+						if hook != nil {
+							reads++
+							if reads == j {
+								h := hook
+								hook = nil
+								h()
+							}
+						}
+						return clock.Now()
+					}))
+					s2, err2 := queue.NewSQLiteStore(path, queue.WithSQLiteNowFunc(clock.Now))
+					if err1 != nil || err2 != nil {
+						continue
+					}
+					n := 1 + r.intn(3)
+					setupOK := true
+					for i := 0; i < n; i++ {
+						id := fmt.Sprintf("ip-%d", i)
+						if s1.Enqueue(queue.Envelope{ID: id, Route: "/p", Target: "pull", Payload: []byte("x")}) != nil {
+							setupOK = false
+						}
+					}
+					if op == "requeue-dead" {
+						resp, err := s1.Dequeue(queue.DequeueRequest{Route: "/p", Target: "pull", Batch: n, LeaseTTL: time.Minute})
+						if err != nil || len(resp.Items) != n {
+							setupOK = false
+						} else {
+							for _, it := range resp.Items {
+								if s1.MarkDead(it.LeaseID, "boom") != nil {
+									setupOK = false
+								}
+							}
+						}
+					} else {
+						var ids []string
+						for i := 0; i < n; i++ {
+							ids = append(ids, fmt.Sprintf("ip-%d", i))
+						}
+						if cr, err := s1.CancelMessages(queue.MessageCancelRequest{IDs: ids}); err != nil || cr.Canceled != n {
+							setupOK = false
+						}
+					}
+					clock.now += int64(time.Minute)
+					interOK := true
+					var lease string
+					fired := false
+					hook = func() {
+						fired = true
+						rq, err := s2.RequeueMessages(queue.MessageRequeueRequest{IDs: []string{"ip-0"}})
+						if err != nil || rq.Requeued != 1 {
+							interOK = false
+							return
+						}
+						resp, err := s2.Dequeue(queue.DequeueRequest{Route: "/p", Target: "pull", Batch: 1, LeaseTTL: time.Hour})
+						if err != nil || len(resp.Items) != 1 || resp.Items[0].ID != "ip-0" {
+							interOK = false
+							return
+						}
+						lease = resp.Items[0].LeaseID
+						if inter == "requeue-lease-nack" {
+							if s2.Nack(lease, time.Hour) != nil {
+								interOK = false
+							}
+						}
+					}
+					state := queue.StateDead
+					if op != "requeue-dead" {
+						state = queue.StateCanceled
+					}
+					var res queue.MessageRequeueResponse
+					var opErr error
+					if op == "resume-canceled" {
+						var rr queue.MessageResumeResponse
+						rr, opErr = s1.ResumeMessagesByFilter(queue.MessageManageFilterRequest{Route: "/p", State: state, Limit: 10})
+						res.Requeued, res.Matched = rr.Resumed, rr.Matched
+					} else {
+						res, opErr = s1.RequeueMessagesByFilter(queue.MessageManageFilterRequest{Route: "/p", State: state, Limit: 10})
+					}
+					hook = nil
+					early, lateMissing, freshFailed := 0, 0, 0
+					if fired && interOK {
+						if inter == "requeue-lease-nack" {
+							clock.now += int64(time.Minute)
+							got, err := s1.Dequeue(queue.DequeueRequest{Route: "/p", Target: "pull", Batch: 10, LeaseTTL: time.Second})
+							if err == nil {
+								for _, it := range got.Items {
+									if it.ID == "ip-0" {
+										early++
+									}
+								}
+							}
+							clock.now += int64(time.Hour)
+							got, err = s1.Dequeue(queue.DequeueRequest{Route: "/p", Target: "pull", Batch: 10, LeaseTTL: time.Second})
+							found := false
+							if err == nil {
+								for _, it := range got.Items {
+									if it.ID == "ip-0" {
+										found = true
+									}
+								}
+							}
+							if !found && early == 0 {
+								lateMissing++
+							}
+						} else {
+							clock.now += int64(time.Minute)
+							if s2.Ack(lease) != nil {
+								freshFailed++
+							}
+						}
+					}
+					emit(map[string]interface{}{"k": "cx", "scenario": "interposed", "op": op, "interposed": inter, "atClockReading": j, "messages": n,
+						"fired": fired, "setupOK": setupOK, "interposedOK": interOK, "opOK": opErr == nil, "requeued": res.Requeued, "matched": res.Matched,
+						"offeredEarly": early, "missingAfterDelay": lateMissing, "freshLeaseAckFailed": freshFailed})
+					_ = s1.Close()
+					_ = s2.Close()
+					os.Remove(path)
+					os.Remove(path + "-wal")
+					os.Remove(path + "-shm")
+				}
+			}
+		}
+
+		// ---- (15) a producer and a consumer at full speed next to a large idle population (the in-memory order list is
+		// compacted again and again meanwhile): every accepted message is delivered — none is left queued, due and never offered.
+		if round%4 < 2 {
+			name := fmt.Sprintf("cx-h-%d.db", round)
+			st, done := newStore(backend, name, func() (queue.Store, error) {
+				if backend == "memory" {
+					return queue.NewMemoryStore(), nil
+				}
+				return queue.NewSQLiteStore(filepath.Join(dir, name))
+			})
+			if st == nil {
+				continue
+			}
+			idle, batches, per := 2000, 600, 100
+			if backend == "sqlite" {
+				idle, batches, per = 500, 30, 50
+			}
+			bs, _ := st.(queue.BatchEnqueuer)
+			lb, _ := st.(queue.LeaseBatchStore)
+			fill := func(route, prefix string, count int) int {
+				okN := 0
+				for at := 0; at < count; at += per {
+					var envs []queue.Envelope
+					for i := at; i < at+per && i < count; i++ {
+						envs = append(envs, queue.Envelope{ID: fmt.Sprintf("%s-%d", prefix, i), Route: route, Target: "pull", Payload: []byte("x")})
+					}
+					if bs != nil {
+						if n, err := bs.EnqueueBatch(envs); err == nil {
+							okN += n
+						}
+					} else {
+						for _, e := range envs {
+							if st.Enqueue(e) == nil {
+								okN++
+							}
+						}
+					}
+				}
+				return okN
+			}
+			fill("/idle", "idle", idle)
+			var accepted, delivered int64
+			var producerDone int32
+			fire(2, func(g int) {
+				if g == 0 {
+					atomic.AddInt64(&accepted, int64(fill("/busy", "busy", batches*per)))
+					atomic.StoreInt32(&producerDone, 1)
+					return
+				}
+				for {
+					fin := atomic.LoadInt32(&producerDone) == 1
+					resp, err := st.Dequeue(queue.DequeueRequest{Route: "/busy", Target: "pull", Batch: per, LeaseTTL: time.Hour})
+					if err == nil && len(resp.Items) > 0 {
+						var ls []string
+						for _, it := range resp.Items {
+							ls = append(ls, it.LeaseID)
+						}
+						if lb != nil {
+							if br, err := lb.AckBatch(ls); err == nil {
+								atomic.AddInt64(&delivered, int64(br.Succeeded))
+							}
+						} else {
+							for _, l := range ls {
+								if st.Ack(l) == nil {
+									atomic.AddInt64(&delivered, 1)
+								}
+							}
+						}
+						continue
+					}
+					if fin {
+						return
+					}
+				}
+			})
+			stuck := 0
+			if ls, err := st.ListMessages(queue.MessageListRequest{Route: "/busy", State: queue.StateQueued, Limit: 1000}); err == nil {
+				stuck = len(ls.Items)
+			}
+			emit(map[string]interface{}{"k": "cx", "scenario": "churn", "backend": backend, "idle": idle, "accepted": accepted, "delivered": delivered, "leftQueuedAndDueButNeverOffered": stuck})
+			done()
+		}
+
 		// ---- (9) a reload that raises the tolerance is held up while loading a later route's secret (a FIFO that nobody
 		// writes yet); a signed request is served meanwhile; then the reload completes. The request's replay after the OLD
 		// window is still inside the new one and must be refused.
